@@ -12,11 +12,22 @@ ROOT = os.path.dirname(os.path.dirname(os.path.abspath(__file__)))
 
 def main():
     seed, n = sys.argv[1], sys.argv[2]
-    out = subprocess.run([os.path.join(ROOT, "harness/target/debug/dump_c05"), seed, n], capture_output=True, text=True).stdout
+    proc = subprocess.run([os.path.join(ROOT, "harness/target/debug/dump_c05"), seed, n], capture_output=True, text=True)
+    out = proc.stdout
+    # the dump must have run to completion: a helper that died half way (a panic or abort of the real
+    # code on the k-th system) must not look like "no violations in the first k systems"
+    if proc.returncode != 0 or f"DONE {n}" not in out.splitlines()[-3:]:
+        print("VIOLATION " + json.dumps({"property": "C05", "kind": "impl-violates-oracle", "signature": "helper-process-died",
+              "what": f"dump_c05 ended with status {proc.returncode} before finishing its {n} systems (a panic or abort on the real code): {proc.stderr[-300:]}",
+              "input": {"cmd": "harness/target/debug/dump_c05 " + seed + " " + n}}))
+        print("STATS " + json.dumps({"systems": 0, "helper_died": True}))
+        sys.exit(0)
     stats = {"systems": 0, "checked": 0, "excluded_no_gap": 0, "excluded_degenerate": 0, "no_constraints": 0,
              "fully_constrained": 0, "with_free_variables": 0, "fell_back_to_a_previous_level": 0, "violations": 0}
     seen = set()
     for line in out.splitlines():
+        if line.startswith("SKIPPED "):
+            stats["skipped"] = json.loads(line[8:]); continue
         if not line.startswith("DOF "):
             continue
         rec = json.loads(line[4:])
